@@ -19,9 +19,17 @@ EXPLANATION = (
     "is built; (4) Segmentation asks for segment offset // segment_size, the node labels segments with "
     "segnum * segment_size, and the bytes written are segment[offset-start : offset-start+overlap] guarded by the "
     "first-byte check, with offset/size advanced by the written length; (5) the AES-CTR counter is positioned from the "
-    "read offset (C01.7); (6) LiteralFileNode.read slices [offset:] / [offset:offset+size].  Undecided: outcomes of "
-    "interleavings, Twisted producer/consumer flow control.")
-TECHNIQUE = "static analysis: who-may-write/call sweeps, CFG gate rules on the cancel path, normal forms of the clip and trim"
+    "read offset (C01.7); (6) LiteralFileNode.read slices [offset:] / [offset:offset+size]; (7) a read has at most one "
+    "segment request outstanding: every route from a method the consumer may call at any time (resumeProducing) to "
+    "get_segment passes `record is None` for a record that _fetch_next sets (a truthiness test of the segment number "
+    "is not such a gate: segment 0 is falsy), the record is reset on both outcomes of the segment Deferred before a "
+    "callback continues the read, and nobody else resets it without cancelling the request; (8) whoever retires the "
+    "node's active fetcher - _cancel_request, also through same-class helpers, and the delivery/failure handlers - "
+    "resets _active_segment and then calls _start_new_segment(), so requests queued by other reads are served.  "
+    "Undecided: outcomes of interleavings, Twisted producer/consumer flow control (the _hungry/_alive gates), a "
+    "_start_new_segment inlined into its callers.")
+TECHNIQUE = ("static analysis: who-may-write/call sweeps, CFG gate rules on the cancel path (inter-procedural typestate with "
+             "function summaries), in-class route gating of get_segment, normal forms of the clip and trim")
 
 NODE = "immutable.downloader.node:DownloadNode"
 SEG = "immutable.downloader.segmentation:Segmentation"
@@ -615,8 +623,7 @@ def run_outstanding(ctx, r):
             if g.qual not in seen:
                 routes(g, {n.id for n in ns}, [g] + chain, seen | {g.qual})
     routes(F, {gn.id}, [F], {F.qual})
-    entries = [g for g in funcs if not g.name.startswith("_") and g is not start_fn and g.qual in reach
-               and any(h_.qual in reach for h_ in [g])]
+    entries = [g for g in funcs if not g.name.startswith("_") and g is not start_fn and g.qual in reach]
     for g in entries:
         r.site(g, None, "reaches get_segment only when no request is outstanding")
     reported = set()
